@@ -127,3 +127,8 @@ Definition option_paths : list string :=
   ["references"%string; "workflowAttributes.restartHookFile"%string; "workflowAttributes.aggregate"%string; "workflowAttributes.replicate"%string; "workflowAttributes.isMigratable"%string; "workflowAttributes.isMigrated"%string; "workflowAttributes.repeatInterval"%string; "workflowAttributes.repeatRetries"%string; "workflowAttributes.maxRestarts"%string; "workflowAttributes.shutdownOn"%string; "workflowAttributes.restartHookOn"%string; "workflowAttributes.isRepeat"%string; "workflowAttributes.memoization.disable.strong"%string; "workflowAttributes.memoization.disable.fuzzy"%string; "workflowAttributes.memoization.embeddingFunction"%string; "workflowAttributes.optimizer.disable"%string; "workflowAttributes.optimizer.exploitChance"%string; "workflowAttributes.optimizer.exploitTarget"%string; "workflowAttributes.optimizer.exploitTargetLow"%string; "workflowAttributes.optimizer.exploitTargetHigh"%string; "resourceManager.config.backend"%string; "resourceManager.config.walltime"%string; "resourceManager.lsf.statusRequestInterval"%string; "resourceManager.lsf.queue"%string; "resourceManager.lsf.reservation"%string; "resourceManager.lsf.resourceString"%string; "resourceManager.lsf.dockerImage"%string; "resourceManager.lsf.dockerProfileApp"%string; "resourceManager.lsf.dockerOptions"%string; "resourceManager.kubernetes.image"%string; "resourceManager.kubernetes.qos"%string; "resourceManager.kubernetes.image-pull-secret"%string; "resourceManager.kubernetes.namespace"%string; "resourceManager.kubernetes.api-key-var"%string; "resourceManager.kubernetes.host"%string; "resourceManager.kubernetes.cpuUnitsPerCore"%string; "resourceManager.kubernetes.gracePeriod"%string; "resourceManager.kubernetes.podSpec"%string; "resourceManager.docker.image"%string; "resourceManager.docker.imagePullPolicy"%string; "resourceManager.docker.platform"%string; "resourceRequest.numberProcesses"%string; "resourceRequest.numberThreads"%string; "resourceRequest.ranksPerNode"%string; "resourceRequest.threadsPerCore"%string; "resourceRequest.memory"%string; "resourceRequest.gpus"%string; "command.executable"%string; "command.arguments"%string; "command.resolvePath"%string; "command.expandArguments"%string; "command.interpreter"%string; "executors.main.docker.docker-args"%string; "executors.main.docker.docker-image"%string; "command.environment"%string; "executors.pre.lsf-dm-in.payload"%string; "executors.post.lsf-dm-out.payload"%string].
 Definition inexpressible : list string :=
   ["resourceManager.docker.image"%string; "resourceManager.docker.imagePullPolicy"%string; "resourceManager.docker.platform"%string; "resourceManager.kubernetes.podSpec"%string; "resourceManager.kubernetes.qos"%string; "resourceRequest.gpus"%string; "workflowAttributes.isMigrated"%string; "workflowAttributes.isRepeat"%string].
+
+(* Dosini.options_for_backend(b) for every backend the code knows: the names validate_component accepts for a
+   component of that backend; a name that is not a known key is kept as a variable of the component *)
+Definition backend_options : list (string * list string) :=
+  [("docker"%string, ["executable"%string]); ("kubernetes"%string, ["executable"%string; "k8s-api-key-var"%string; "k8s-grace-period"%string; "k8s-host"%string; "k8s-image"%string; "k8s-image-pull-secret"%string; "k8s-namespace"%string]); ("loadleveler"%string, ["executable"%string; "queue"%string]); ("local"%string, ["executable"%string]); ("lsf"%string, ["executable"%string; "lsf-docker-image"%string; "lsf-docker-options"%string; "lsf-docker-profile-app"%string; "queue"%string; "reservation"%string; "resourceString"%string; "walltime"%string]); ("simulator"%string, ["executable"%string; "queue"%string; "reservation"%string; "resourceString"%string; "sim_expected_exit_code"%string; "sim_range_execution_time"%string; "sim_range_schedule_overhead"%string; "walltime"%string]); ("slurm"%string, ["executable"%string; "queue"%string])].
